@@ -78,6 +78,11 @@ def handleClient (toks : List String) : Option String :=
     let rs ← (splitList reads ",").mapM hexToBytes
     let (b, pk) := Reader.feedAll Reader.feedLines [] rs
     pure s!"{bytesToHex b} {",".intercalate (pk.map bytesToHex)}"
+  | ["reader.linesLim", limit, reads] => do
+    let rs ← (splitList reads ",").mapM hexToBytes
+    let lim ← limit.toNat?
+    let (st, pk) := Reader.feedAllLim lim {} rs
+    pure s!"{bytesToHex st.buf}/{if st.skip then 1 else 0} {",".intercalate (pk.map bytesToHex)}"
   | ["queue.run", evs] => do
     let es ← (if evs = "-" then [] else splitList evs ",").mapM (fun t => match t.splitOn "_" with
       | ["put", n] => n.toNat?.map QEv.put
